@@ -233,6 +233,7 @@ def check(ctx, report):
             if not it.startswith('range(item_offset'):
                 report.add('C19.R3', scan.construct + '@origin', 'separator scan does not start at the item offset (%s)' % it)
     report.floor('C19.R1', 300, 'classes in the containment graph')
+    stateless_parsing(ctx, report)
     report.floor('C19.R4', 60, 'loop/item obligations')
 
 
@@ -286,3 +287,94 @@ def text_item_progress(ctx, k):
     checked in _parse_string_array before an item class is applied)"""
     lay = ctx.canon.layout(k, 'parse')
     return any(p.kind == 'text' for p in lay.result.parsers)
+
+
+# ---- R5: no state is kept between parses --------------------------------------------------------------------
+
+CLASS_STATE_MUTATORS = {'append', 'extend', 'insert', 'update', 'setdefault', 'pop', 'popitem', 'clear', 'remove', 'add', 'discard',
+                        'sort', 'reverse', '__setitem__', '__delitem__', 'appendleft'}
+# the registration API is the one place that is meant to write class level state (called by users at import time)
+REGISTRATION_API = {'register_variant_parser'}
+
+
+def class_rooted(node, f, model, aliases):
+    """is ``node`` an expression that denotes (part of) class level state: cls.X, Class.X, type(self).X, subscripts of
+    those, or a local alias of one"""
+    b = node
+    while isinstance(b, ast.Subscript):
+        b = b.value
+    if isinstance(b, ast.Name) and b.id in aliases:
+        return True
+    if isinstance(b, ast.Attribute):
+        v = b.value
+        if isinstance(v, ast.Name):
+            first = f.node.args.args[0].arg if f.node.args.args else None
+            is_cls = first == 'cls' or any(isinstance(d, ast.Name) and d.id == 'classmethod' for d in f.node.decorator_list)
+            if is_cls and v.id == first:
+                return True
+            r = model.resolve_name(f.module, v.id)
+            return isinstance(r, ClassInfo)
+        if isinstance(v, ast.Call) and isinstance(v.func, ast.Name) and v.func.id == 'type':
+            return True
+        if isinstance(v, ast.Attribute) and v.attr == '__class__':
+            return True
+    return False
+
+
+def stateless_parsing(ctx, report):
+    """a parse must cost the same whatever was parsed before: outside the registration API no function of the package
+    assigns to class level state or mutates a container it reached through a class attribute (directly or through a
+    local alias). Reviewed exception: the lazily created, empty per-class registry of _get_registered_variants"""
+    from .c14 import class_state_stores
+    model = ctx.model
+    report.rule('C19.R5', 'no function outside the registration API writes class level state (work independent of earlier parses)')
+    for f in model.functions():
+        if f.module.external or f.name in REGISTRATION_API:
+            continue
+        report.count('C19.R5')
+        aliases = set()
+        for n in ast.walk(f.node):
+            if isinstance(n, ast.Assign) and len(n.targets) == 1 and isinstance(n.targets[0], ast.Name) and \
+                    isinstance(n.value, (ast.Attribute, ast.Subscript)) and class_rooted(n.value, f, model, ()):
+                # a method object or a scalar read is not a container alias: only subscripts / attributes that are later mutated matter
+                aliases.add(n.targets[0].id)
+        init = memo_guarded(f, model)
+        for what, node in class_state_stores(f, model):
+            if id(node) in init:
+                report.sample({'rule': 'C19.R5', 'function': f.construct, 'verdict': 'memoisation',
+                               'reason': '%s is written once, under a guard that tests that it is not there yet: bounded and idempotent' % what}, 6)
+                continue
+            report.add('C19.R5', '%s@store[%s]' % (f.construct, what),
+                       'class level state %s is written on a path that is not the registration API: what a parse costs (or returns) then depends on earlier parses' % what)
+        for n in ast.walk(f.node):
+            if isinstance(n, ast.Call) and isinstance(n.func, ast.Attribute) and n.func.attr in CLASS_STATE_MUTATORS and \
+                    class_rooted(n.func.value, f, model, aliases) and id(n) not in init:
+                report.add('C19.R5', '%s@mutate[%s]' % (f.construct, ast.unparse(n.func)),
+                           'a container reached through class level state is mutated (%s): it grows or changes from one parse to the next' % ast.unparse(n)[:70])
+
+
+def memo_guarded(f, model):
+    """ids of the nodes inside ``if <key> not in <class state>:`` / ``if <class state> is None:`` blocks: the one-time
+    initialisation of a memo entry"""
+    out = set()
+    for n in ast.walk(f.node):
+        if isinstance(n, ast.If) and isinstance(n.test, ast.Compare) and len(n.test.ops) == 1:
+            op, right = n.test.ops[0], n.test.comparators[0]
+            guard = (isinstance(op, ast.NotIn) and class_rooted(right, f, model, ())) or \
+                    (isinstance(op, ast.Is) and isinstance(right, ast.Constant) and right.value is None and class_rooted(n.test.left, f, model, ()))
+            if guard:
+                for st in n.body:
+                    for x in ast.walk(st):
+                        out.add(id(x))
+    return out
+
+
+def reviewed_lazy_registry(f, node):
+    if f.name != '_get_registered_variants' or not isinstance(node, ast.Subscript):
+        return False
+    parent = [n for n in ast.walk(f.node) if isinstance(n, ast.If) and any(node is t for st in n.body if isinstance(st, ast.Assign) for t in st.targets)]
+    if not parent:
+        return False
+    st = [x for x in parent[0].body if isinstance(x, ast.Assign)][0]
+    empty = isinstance(st.value, ast.Call) and not st.value.args and not st.value.keywords
+    return empty and 'not in' in ast.unparse(parent[0].test)
